@@ -34,6 +34,8 @@ func EndBlocker(ctx sdk.Context, k keeper.Keeper) {
 	i := 0
 	// Build claim map over all validators in active set
 	validatorClaimMap := make(map[string]types.Claim)
+	// total power of the validators that can vote: the threshold is a share of this
+	totalBondedPower := int64(0)
 	for ; iterator.Valid() && i < int(maxValidators); iterator.Next() {
 		validator, found := k.StakingKeeper.GetValidator(ctx, iterator.Value())
 		if !found {
@@ -43,18 +45,19 @@ func EndBlocker(ctx sdk.Context, k keeper.Keeper) {
 		// Exclude inactive validator or jailed validator
 		if validator.IsBonded() && !validator.IsJailed() {
 			valAddr := validator.GetOperator()
+			weight := validator.GetConsensusPower(k.StakingKeeper.PowerReduction(ctx))
 			validatorClaimMap[valAddr.String()] = types.Claim{
-				Weight:  validator.GetConsensusPower(k.StakingKeeper.PowerReduction(ctx)),
+				Weight:  weight,
 				Miss:    false,
 				Abstain: false,
 			}
+			totalBondedPower += weight
 			i++
 		}
 	}
 
 	// calculate threshold power for a block to be considered as a winner
 	// threshold = total power * params.VoteThreshold (0.5 by default)
-	totalBondedPower := sdk.TokensToConsensusPower(k.StakingKeeper.TotalBondedTokens(ctx), k.StakingKeeper.PowerReduction(ctx))
 	voteThreshold := params.VoteThreshold
 	// round up: RoundInt is banker's rounding and can fall below the configured share of the power
 	thresholdVotes := voteThreshold.MulInt64(totalBondedPower).Ceil().TruncateInt()
